@@ -97,6 +97,42 @@ def api_probes(ctx):
                                         "observed": [repr(after)], "expected": [repr(before)]})
             import copy as _c
             nfit.FP_DEFAULT.update(_c.deepcopy(DEFAULTS_AT_IMPORT))
+        # "the effect of a call depends only on the argument values": the same keyword arguments written in another
+        # order are the same call
+        import itertools
+        P1 = ["compute_tip_position", "correct_tip_offset"]
+        plateau = dict(optimal_fit_edelta=True, optimal_fit_num_samples=7, range_x=[-8e-7, 4e-7], range_type="absolute")
+        for label, prefix, kw in (
+                ("plateau search off + lower bound", [plateau], {"range_x": [-1.2e-6, 4e-7], "optimal_fit_edelta": False}),
+                ("model + parameters", [{}], {"params_initial": "CONE", "model_key": "hertz_cone", "weight_cp": 0}),
+                ("range type + interval", [{}], {"range_x": [-6e-7, 3e-7], "range_type": "relative cp", "segment": 0})):
+            seen = {}
+            for perm in itertools.permutations(list(kw)):
+                with warnings.catch_warnings():
+                    warnings.simplefilter("ignore")
+                    c_ = histlib.fresh(cid)
+                    c_.apply_preprocessing(list(P1))
+                    try:
+                        for pk in prefix:
+                            c_.fit_model(**copy.deepcopy(pk))
+                        kwo = {k_: (model.models_available["hertz_cone"].get_parameter_defaults()
+                                    if kw[k_] == "CONE" else copy.deepcopy(kw[k_])) for k_ in perm}
+                        c_.fit_model(**kwo)
+                        fp_ = c_.fit_properties
+                        obs_ = (repr(fp_.get("range_x")), fp_.get("hash"), fp_.get("model_key"),
+                                tuple((n_, q_.value) for n_, q_ in fp_.get("params_fitted", {}).items()))
+                    except BaseException as e:  # noqa
+                        obs_ = "raises " + type(e).__name__
+                seen.setdefault(obs_, []).append(list(perm))
+            ctx.case({"probe": "keyword-order", "call": label, "curve": cid}, nontrivial=f"probe:kworder:{label}:{cid}",
+                     bucket="stream=api-probes")
+            if len(seen) > 1:
+                ctx.violation("keyword-order-matters", f"fit_model({', '.join(kw)}) behaves differently depending on the "
+                              f"order in which the keyword arguments are written ({label}): " +
+                              "; ".join(f"{v_[0]} -> {str(k_)[:120]}" for k_, v_ in seen.items()),
+                              {"history": [f"apply_preprocessing({P1})"] + [f"fit_model(**{pk})" for pk in prefix] +
+                                          [f"fit_model(**{kw}) in the orders {[v_[0] for v_ in seen.values()]}"],
+                               "curve": cid})
         # objects the library RETURNS (preprocessing details, POC details) are edited in place by the caller
         # (unit conversion for plotting): neither the curve's columns nor the caller's own arrays may change
         def scribble(o, depth=0):
